@@ -1,2 +1,2 @@
-import NipyVerif.Model.C11B
-def main : IO Unit := NipyVerif.driverLoop NipyVerif.C11.runB
+import NipyVerif.Model.C11C
+def main : IO Unit := NipyVerif.driverLoop NipyVerif.C11.runC
